@@ -24,11 +24,24 @@ let num s = n_of_int (int_of_string s)
 let parse_decls s = List.map (fun d -> match String.split_on_char '=' d with
   | [k; v] -> (num k, num v) | _ -> failwith "bad decl") (split_ne ',' s)
 
-let parse_importer s : n -> package option =
-  let tbl = List.map (fun e -> match String.split_on_char ':' e with
-    | [p; nm; ds] -> (int_of_string p, { p_name = num nm; p_decls = parse_decls ds })
-    | _ -> failwith "bad importer entry") (split_ne ';' s) in
-  fun p -> List.assoc_opt (int_of_n p) tbl
+(* an importer: members separated by '|', each a list of `path:name:decls` (a package) or `path:!` (an error);
+   the members are combined by the model of native.CombinedImporter *)
+let parse_answer (e : string) : int * ianswer =
+  match String.split_on_char ':' e with
+  | [p; "!"] -> (int_of_string p, AErr)
+  | [p; "-"] -> (int_of_string p, ANone)
+  | [p; nm; ds] -> (int_of_string p, APkg { p_name = num nm; p_decls = parse_decls ds })
+  | _ -> failwith "bad importer entry"
+
+let parse_member (s : string) : n -> ianswer =
+  let tbl = List.map parse_answer (split_ne ';' s) in
+  fun p -> (match List.assoc_opt (int_of_n p) tbl with Some a -> a | None -> ANone)
+
+(* "none": no member; a member without answers is written "-" *)
+let parse_members (s : string) : (n -> ianswer) list =
+  if s = "none" then [] else List.map parse_member (String.split_on_char '|' s)
+
+let parse_importer s : n -> ianswer = combined (parse_members s)
 
 let parse_imports s = List.map (fun e -> match String.split_on_char ':' e with
   | [f; a; p] ->
@@ -63,6 +76,7 @@ let ints l = String.concat "," (List.map string_of_int l)
 
 let error_s (e : error) = match e with
   | ECannotFindPackage p -> "cfp:" ^ string_of_int (int_of_n p)
+  | EImporterError p -> "imperr:" ^ string_of_int (int_of_n p)
   | EUndefined -> "undefined"
   | EGoNotAvailable -> "go"
   | ENotCallable -> "notcallable"
@@ -70,8 +84,40 @@ let error_s (e : error) = match e with
   | ERedeclared -> "redeclared"
   | EUnusedImport p -> "unused:" ^ string_of_int (int_of_n p)
 
+let result_s (r : (outcome, error) sum) : string =
+  match r with
+  | Inl o -> "ok:" ^ ints (sort_uniq_ns o.o_natives) ^ "|" ^ ints (sort_uniq_ns o.o_asked) ^ "|"
+             ^ (if int_of_n o.o_prints > 0 then "print" else "noprint")
+  | Inr e -> "err:" ^ error_s e
+
+(* one event of a history: G+x=id  G-x  M<i>@<answer>  B<allow><template>^imports^funcs^body *)
+let parse_event (s : string) : event =
+  let n = String.length s in
+  if n >= 2 && s.[0] = 'G' && s.[1] = '+' then
+    (match String.split_on_char '=' (String.sub s 2 (n - 2)) with
+     | [x; id] -> EvEdit (EdGlobalSet (num x, num id))
+     | _ -> failwith "bad global set")
+  else if n >= 2 && s.[0] = 'G' && s.[1] = '-' then EvEdit (EdGlobalDel (num (String.sub s 2 (n - 2))))
+  else if n >= 1 && s.[0] = 'M' then
+    (match String.index_opt s '@' with
+     | Some k ->
+       let i = int_of_string (String.sub s 1 (k - 1)) in
+       let (p, a) = parse_answer (String.sub s (k + 1) (n - k - 1)) in
+       EvEdit (EdMemberSet (nat_of_int i, n_of_int p, a))
+     | None -> failwith "bad member edit")
+  else if n >= 4 && s.[0] = 'B' && s.[3] = '^' then
+    (match String.split_on_char '^' (String.sub s 4 (n - 4)) with
+     | [imports; funcs; body] ->
+       EvBuild (s.[1] = '1', s.[2] = '1',
+                { g_imports = parse_imports imports; g_funcs = List.map num (split_ne ',' funcs); g_body = parse_body body })
+     | _ -> failwith "bad build event")
+  else failwith ("bad event " ^ s)
+
 let handle (f : string list) : string =
   match f with
+  | "hist" :: imp :: globals :: events ->
+    let st = { h_globals = parse_decls globals; h_members = parse_members imp } in
+    String.concat " / " (List.map result_s (run () st (List.map parse_event events)))
   | ["QueryEscape"; h] -> optbytes (queryEscape (bytes_of_hex h))
   | ["onlyJSONWhitespace"; h] ->
     (match only_json_ws (bytes_of_hex h) with Some b -> "ok:" ^ bool_s b | None -> "panic")
@@ -86,10 +132,7 @@ let handle (f : string list) : string =
   | ["check"; allow; tmpl; imp; globals; imports; funcs; body] ->
     let cfg = { c_importer = parse_importer imp; c_globals = parse_decls globals; c_allow_go = (allow = "1"); c_template = (tmpl = "1") } in
     let g = { g_imports = parse_imports imports; g_funcs = List.map num (split_ne ',' funcs); g_body = parse_body body } in
-    (match check cfg g with
-     | Inl o -> "ok:" ^ ints (sort_uniq_ns o.o_natives) ^ "|" ^ ints (sort_uniq_ns o.o_asked) ^ "|"
-                ^ (if int_of_n o.o_prints > 0 then "print" else "noprint")
-     | Inr e -> "err:" ^ error_s e)
+    result_s (check cfg g)
   | _ -> "driver-error:unknown-command"
 
 let () = main_loop handle
